@@ -198,6 +198,25 @@ def check_c17(budget):
                             "observed": "partial sample accepted"}, ev
                 except AudioParameterError:
                     pass
+    # equality must also tell apart regions with the same bytes and frame size but swapped width / channels
+    for (p1, p2) in (((16, 2, 1), (16, 1, 2)), ((16, 4, 1), (16, 2, 2)), ((16, 2, 2), (8, 2, 2)), ((16, 2, 1), (16, 2, 1))):
+        for nb in (0, 8):
+            ev += 1
+            a, b = AudioRegion(bytes(range(nb)), *p1), AudioRegion(bytes(range(nb)), *p2)
+            if (a == b) != (p1 == p2):
+                return {"kind": "region", "pid": "C17", "op": "eq-params", "args": [nb, list(p1), list(p2)],
+                        "observed": "regions with parameters %r and %r and equal bytes compare %r" % (p1, p2, a == b)}, ev
+    for (p1, p2) in (((16, 2, 1), (8, 2, 1)), ((16, 2, 1), (16, 1, 1)), ((16, 2, 1), (16, 2, 2))):
+        for (n1, n2) in ((0, 4), (4, 0), (0, 0)):
+            ev += 1
+            a, b = AudioRegion(bytes(n1 * p1[1] * p1[2]), *p1), AudioRegion(bytes(n2 * p2[1] * p2[2]), *p2)
+            for opn, f in (("add", lambda: a + b), ("sum", lambda: sum([a, b])), ("join", lambda: a.join([b]))):
+                try:
+                    f()
+                    return {"kind": "region", "pid": "C17", "op": opn + "-mismatch-empty", "args": [n1, n2, list(p1), list(p2)],
+                            "observed": "no AudioParameterError when one operand is empty"}, ev
+                except AudioParameterError:
+                    pass
     for sr in (10, 16, 11025, 22050, 8, 3):
         for num in range(0, 41):
             for den in (1, 2, 4, 8, 3, 16):
